@@ -133,6 +133,37 @@ instance (s : Str) : Decidable (NoTrailingBlank s) := by
     · exact isTrue (by intro c' e; cases e; exact hc)
     · exact isFalse (by intro hh; exact hc (hh c rfl))
 
+/-- the string neither starts nor ends with a white-space character: `s.strip() == s` -/
+def Stripped (s : Str) : Prop := (∀ c, s.head? = some c → isSpace c = false) ∧ NoTrailingBlank s
+
+/-- `s.strip()` is stripped -/
+theorem strip_stripped (s : Str) : Stripped (strip s) := by
+  unfold strip rstrip lstrip
+  constructor
+  · intro c hc
+    -- the head of the result is the head of `lstrip s`, or the result is empty
+    have hpre : ∃ suf, s.dropWhile isSpace =
+        ((s.dropWhile isSpace).reverse.dropWhile isSpace).reverse ++ suf := by
+      refine ⟨((s.dropWhile isSpace).reverse.takeWhile isSpace).reverse, ?_⟩
+      rw [← List.reverse_append, List.takeWhile_append_dropWhile, List.reverse_reverse]
+    obtain ⟨suf, hs⟩ := hpre
+    cases hr : ((s.dropWhile isSpace).reverse.dropWhile isSpace).reverse with
+    | nil => rw [hr] at hc; simp at hc
+    | cons a as =>
+      rw [hr] at hc hs
+      have hca : c = a := by simpa using hc.symm
+      have := List.head?_dropWhile_not isSpace s
+      rw [hs] at this
+      simpa [hca] using this
+  · intro c hc
+    have h' : ((s.dropWhile isSpace).reverse.dropWhile isSpace).head? = some c := by
+      rw [List.getLast?_reverse] at hc; exact hc
+    have := List.head?_dropWhile_not isSpace (s.dropWhile isSpace).reverse
+    rw [h'] at this
+    simpa using this
+
+theorem strip_of_stripped (s : Str) (h : Stripped s) : strip s = s := strip_eq_self s h.1 h.2
+
 /-! ## `pathsplit` -/
 
 /-- a path with a character that is neither white space nor `/` has at least one segment -/
